@@ -778,16 +778,29 @@ def decode_written(path, ext):
         return None, [], 0, 'written file unreadable: %s: %s' % (type(ex).__name__, ex)
 
 
+def probe_machine(rnd, idx):
+    """Directed class (VERIF_C20_PROBES=1 only): a version 1 .z80 recording whose PC is 0 at a frame boundary."""
+    m = gen_machine(rnd, idx)
+    while m['machine'] != '48K':
+        m = gen_machine(rnd, idx)
+    m['banks'][2][0:2] = bytes([0xF3, 0xC7])              # 0x8000: DI ; RST 0
+    m.update(pc=0x8000, sp=0xFF00, iff1=0, iff2=0)
+    return m, [2, 5, 5], ('z80', 1, True)
+
+
 def one_recording(rnd, wd, idx, tier, cases, traces, stats):
     m = gen_machine(rnd, idx)
     plan = gen_plan(rnd, 10 if tier == 'quick' else 14)
     conv = rnd.randrange(4)
     fmt = gen_fmt(rnd, m)
+    if os.environ.get('VERIF_C20_PROBES') == '1' and idx % 1000 == 0:
+        m, plan, fmt = probe_machine(rnd, idx)
     inmode = rnd.choice(('const', 'port', 'few', 'random'))
     nsplit = rnd.choice((0, 0, 0, 1, 1, 2))
     splits = tuple(sorted(set(rnd.randrange(1, len(plan) + 1) for _ in range(nsplit))))
     empties = rnd.random() < 0.3
-    snapmodes = tuple(rnd.choice(('same', 'same', 'needed', 'stale')) for _ in range(2))
+    odd = rnd.choice(('needed', 'stale'))                 # never both in one file: no flags value could play it
+    snapmodes = tuple(rnd.choice(('same', odd)) for _ in range(2))
     inseed = rnd.randrange(1 << 30)
     m0 = start_machine(m, fmt)
     recs = {0: record(m0, plan, conv, False, inmode, inseed, splits, empties, snapmodes=snapmodes),
@@ -854,10 +867,13 @@ def one_recording(rnd, wd, idx, tier, cases, traces, stats):
         else:
             flagset = sorted(set([conv | bit2(), rnd.randrange(8)]))
         traced = False
+        tflag = conv | bit2()
+        if tflag not in flagset:
+            flagset = sorted(flagset + [tflag])
         for fl in flagset:
             out = final_path('%s%d_%d' % (impl, cm, fl))
             tr = None
-            if not traced and (fl & 3) == conv and rnd.random() < 0.6:
+            if not traced and fl == tflag and rnd.random() < 0.6:
                 tr = os.path.join(wd, 't%d.txt' % idx)
                 traced = True
             err = play(path, out, flags=fl, cmio=bool(cm), python=impl == 'py', trace=tr)
@@ -871,7 +887,7 @@ def one_recording(rnd, wd, idx, tier, cases, traces, stats):
                 limit = 300 if tier == 'quick' else 600
                 obs, bad = read_trace(tr, limit)
                 ev = recs[cm].events
-                traces.append({'rec': idx, 'key': key, 'impl': impl, 'cmio': cm, 'flags': fl, 'blocks': [{'fs': b['fs']} for b in bj],
+                traces.append({'rec': idx, 'key': key, 'impl': impl, 'cmio': cm, 'flags': fl, 'blocks': bj,
                                'ev': ev[:len(obs) + 1], 'obs': obs, 'full': 1 if len(ev) <= limit and not bad else 0, 'bad': bad})
             if os.path.exists(out):
                 os.remove(out)
